@@ -171,7 +171,7 @@ Fixpoint serve_events (s : st) (evs : list pevent) : st :=
   | e :: r => if is_idle (pc s) then
                 match step s (ev_label e) with
                 | Some s1 => serve_events (settle (settle_fuel s1) s1) r
-                | None => s
+                | None => serve_events s r          (* a kind the LTS does not know: skipped *)
                 end
               else s
   end.
@@ -184,4 +184,34 @@ Fixpoint serve (s : est) (segs : list bytes) : est :=
         serve {| lts := serve_events (lts s) evs; par := p'; pend := [] |} r
       else s
   end.
+Definition serve_stream (s0 : st) (p : pstate) (segs : list bytes) : st :=
+  lts (serve {| lts := s0; par := p; pend := [] |} segs).
 End E2E.
+
+(* the worker's effects on the error path *)
+Definition worker_err_label (l : label) : Prop :=
+  match l with
+  | LErrBcast _ | LTValues _ | LTClear | LEvSetErr _ | LClose 0 | LExit => True
+  | _ => False
+  end.
+(* the labels [settle] performs *)
+Fixpoint settle_labels (fuel : nat) (s : st) : list label :=
+  match fuel with
+  | O => []
+  | S f => match wnext s with
+           | Some l => match step s l with Some s' => l :: settle_labels f s' | None => [] end
+           | None => []
+           end
+  end.
+(* number of worker effects until it is idle again or has exited *)
+Definition wmeasure (s : st) : nat :=
+  match pc s with
+  | WIdle | WExited => 0
+  | WNotif _ | WDel _ | WClosed => 1
+  | WDeliver _ _ => 2
+  | WLookup _ => 7 + length (table s)
+  | WRaise _ => 6 + length (table s)
+  | WErrSnap _ => 5 + length (table s)
+  | WErrClear _ r => 4 + length r
+  | WErrDeliver _ r => 3 + length r
+  end%nat.
